@@ -271,3 +271,9 @@ func clip(b []byte) []byte {
 	}
 	return b
 }
+
+// Release is for callers that stopped the processor themselves (p.P.Stop()): it gives back what Stop would have.
+func (p *Proxy) Release() {
+	statpurge.MarkStopped(p.Name)
+	p.res.Release()
+}
